@@ -141,7 +141,7 @@ PROPS['C04'] = dict(_GC, design=[D('MCGoChannelImpl','MCGoChannelImpl_volatile.c
 PROPS['C05'] = dict(_GC, design=[D('MCGoChannelImpl','MCGoChannelImpl_blocking.cfg'), D('MCGoChannelImpl','MCGoChannelImpl_batch_blocking.cfg'), D('MCGoChannelImpl','MCGoChannelImpl_batch_blocking_persistent.cfg', workers=8), D('MCGoChannelImpl','MCGoChannelImpl_mut_batchnowait.cfg', expect='fail', violates='BatchOrder'), D('MCGoChannelImpl','MCGoChannelImpl_republish.cfg'), D('MCGoChannelImpl','MCGoChannelImpl_republish_live.cfg'), D('MCGoChannelImpl','MCGoChannelImpl_mut_holdlocks.cfg', expect='fail', violates='NoStuckCall')], rule='runs = one-unsettled scenarios (3 publishers incl. a batch against slow / nacking / mutating consumers, buffers 0,1,5), blocking-publish '
     'scenarios (acks, nacks, never-acking consumer released by cancel or Close, subscriptions coming and going, consumer republishing to another topic, with a pending '
     'Subscribe forced at the wait-for-settlement point) and random programs; non-trivial as C04', min_stats={'scenarios': 80})
-PROPS['C07'] = dict(_GC, race=True, traces=dict(_GC['traces'], SubDecoratorTrace=dict(module='SubDecoratorTrace', cfg='SubDecoratorTrace.cfg', timeout=1800)), selftests=[('GoChannelImplTrace_volatile', 'drop', dict(e='hook', point='gochannel.publish.rlocked')), ('GoChannelImplTrace_persistent', 'drop', dict(e='hook', point='gochannel.sub.close.closed')), ('GoChannelTrace', 'drop', dict(e='chanclosed'))], design=[D('MCGoChannelImpl','MCGoChannelImpl_close_blocking.cfg', workers=12, heap='12g'), D('MCGoChannelImpl','MCGoChannelImpl_mut_nillog.cfg', expect='fail', violates='NoPanic'), D('MCGoChannelImpl','MCGoChannelImpl_mut_droplogearly.cfg', expect='fail', violates='NoPanic'), D('MCGoChannelImpl','MCGoChannelImpl_close.cfg', tier='thorough', workers=12, heap='12g', timeout=1800), D('MCGoChannelImpl','MCGoChannelImpl_live.cfg', tier='thorough', workers=12, heap='16g', timeout=3600)], rule='runs = pairwise enumeration: a goroutine parked at every hook point of Publish / the send loop / Subscribe incl. replay / tear-down / '
+PROPS['C07'] = dict(_GC, race=True, generators=[dict(cmd='gen-decorator-schedules', file='decorator-schedules.json', env='VERIF_DECORATOR_SCHEDULES')], traces=dict(_GC['traces'], SubDecoratorTrace=dict(module='SubDecoratorTrace', cfg='SubDecoratorTrace.cfg', timeout=1800)), selftests=[('GoChannelImplTrace_volatile', 'drop', dict(e='hook', point='gochannel.publish.rlocked')), ('GoChannelImplTrace_persistent', 'drop', dict(e='hook', point='gochannel.sub.close.closed')), ('GoChannelTrace', 'drop', dict(e='chanclosed'))], design=[D('MCGoChannelImpl','MCGoChannelImpl_close_blocking.cfg', workers=12, heap='12g'), D('MCGoChannelImpl','MCGoChannelImpl_mut_nillog.cfg', expect='fail', violates='NoPanic'), D('MCGoChannelImpl','MCGoChannelImpl_mut_droplogearly.cfg', expect='fail', violates='NoPanic'), D('MCGoChannelImpl','MCGoChannelImpl_close.cfg', tier='thorough', workers=12, heap='12g', timeout=1800), D('MCGoChannelImpl','MCGoChannelImpl_live.cfg', tier='thorough', workers=12, heap='16g', timeout=3600)], rule='runs = pairwise enumeration: a goroutine parked at every hook point of Publish / the send loop / Subscribe incl. replay / tear-down / '
     'unsubscribe x {Close, double Close, cancel of either subscription, Publish, Subscribe} x {volatile, persistent (+ blocking variants in thorough)} x {bare, 1 (2) '
     'subscriber decorators}, unread-channel and cancel-mid-stream scenarios with 2 concurrent closers, random programs with concurrent Close; every run ends with Close, '
     'post-Close Publish/Subscribe probes and a goroutine-leak check; non-trivial = gate reached', min_stats={'scenarios': 300, 'gates_reached': 100})
@@ -295,6 +295,7 @@ PROPS['C20'] = dict(
     traces={'PubSubDecoratorsTrace': dict(module='PubSubDecoratorsTrace', cfg='PubSubDecoratorsTrace.cfg'),
             'SubDecoratorTrace': dict(module='SubDecoratorTrace', cfg='SubDecoratorTrace.cfg', timeout=1800)},
     selftests=[('SubDecoratorTrace', 'drop', dict(e='hook', point='decorator.close.signalled'))],
+    generators=[dict(cmd='gen-decorator-schedules', file='decorator-schedules.json', env='VERIF_DECORATOR_SCHEDULES')],
     rule='runs = (1) delay.Publisher: every batch of 1..3 messages over delay sources {metadata present, context delay (For / Until future / Until past / zero), none} x generator '
          '{present, failing, absent} x AllowNoDelay x inner publisher {accept, error}; (2) every publisher-decorator stack of depth 1..3 over {transform, metrics, delay} x batch '
          'size 1..3 x inner outcome, and every subscriber-decorator stack of depth 1..3 over {transform, metrics} with Ack/Nack propagated to the inner message; (3) Prometheus '
@@ -302,7 +303,7 @@ PROPS['C20'] = dict(
          "harness' own event counts; (4) randomly scripted concurrent runs of one message-transform subscriber decorator (1-2 subscriptions x 0-3 messages x consumers that stop after "
          "0-3 messages or read on x cancels x one Close x a Subscribe after Close began), recorded as internal hook traces; non-trivial = every run",
     exhaustive=True,
-    min_stats={'delay_cases': 400, 'stack_cases': 200, 'metrics_cases': 20, 'decorator_conformance_runs': 100},
+    min_stats={'delay_cases': 400, 'stack_cases': 200, 'metrics_cases': 20, 'decorator_conformance_runs': 100, 'decorator_schedules_replayed': 100},
     assumptions=['delayed_until has one-second resolution: the stamping instant is accepted within [-6 s, +2 s] of the call',
                  'asynchronous subscriber counters are polled until complete (at most 3 s)'],
 )
